@@ -57,6 +57,7 @@ type observation struct {
 	BadLines  []string      `json:"bad_output_lines,omitempty"`
 	Queries   int           `json:"queries"`
 	Answered  int           `json:"answered"`
+	Probes    []string      `json:"size_probes,omitempty"`
 	StartMS   int64         `json:"start_ms"`
 	TrafficMS int64         `json:"traffic_ms"`
 	StopMS    int64         `json:"stop_ms"`
@@ -236,6 +237,17 @@ func timeTouched(ms []mutation) bool {
 	return false
 }
 
+// bufTouched: a socket buffer size was mutated; the kernel may then drop large
+// datagrams, which is the configured effect.
+func bufTouched(ms []mutation) bool {
+	for _, m := range ms {
+		if g := m.Path.generic(); g == "network.so_sndbuf" || g == "network.so_rcvbuf" {
+			return true
+		}
+	}
+	return false
+}
+
 // connTouched: the stream-connection limit was set to 0 or 1.  The
 // documentation states that listening sockets count as active connections and
 // that the thresholds should exceed the number of bound addresses, so stream
@@ -251,6 +263,23 @@ func connTouched(ms []mutation) bool {
 	return false
 }
 
+// boundExpectation adds the expectation for single mutations of a property with
+// a documented upper bound: the bound itself is a legal value and must be
+// accepted; a value beyond it must be rejected.
+func boundExpectation(o *observation, ms []mutation) {
+	if len(ms) != 1 || !documentedBound(ms[0].Path) {
+		return
+	}
+	switch cls := ms[0].Value.Class; {
+	case (cls == "bound" || cls == "bound-spelled" || cls == "bound-1") && o.Verdict == "rejected" && o.Class == "":
+		o.Verdict, o.Class = "violation", "documented-bound-rejected"
+		o.What = "the documented maximum itself was rejected: " + tail(o.Message, 200)
+	case (cls == "bound+1" || cls == "round+") && o.Verdict == "accepted":
+		o.Verdict, o.Class = "violation", "beyond-documented-bound-accepted"
+		o.What = "a value beyond the documented maximum was accepted and served"
+	}
+}
+
 // runOnce executes the configuration obtained from the base by ms.
 func (h *harness) runOnce(ms []mutation, tag string) (obs *observation) {
 	obs = &observation{}
@@ -258,6 +287,7 @@ func (h *harness) runOnce(ms []mutation, tag string) (obs *observation) {
 		o, collided := h.attempt(ms, tag)
 		o.PortRetry = attempt
 		if !collided {
+			boundExpectation(o, ms)
 			return o
 		}
 		obs = o
@@ -374,6 +404,10 @@ func (h *harness) attempt(ms []mutation, tag string) (obs *observation, collided
 		sp.DNSCheckOK = true
 	}
 	tTraffic := time.Now()
+	if v, ok := treeGet(tree, cfgPath{key("dns"), key("max_udp_response_size")}); ok {
+		sp.CfgUDPSize, _ = sizeBytes(v)
+	}
+	sp.SizeProbe = !timeTouched(ms) && !bufTouched(ms)
 	sp.TimeTouched = timeTouched(ms)
 	sp.ConnTouched = connTouched(ms)
 	// hopeless: the process died or printed a panic; waiting for more answers
@@ -385,6 +419,9 @@ func (h *harness) attempt(ms []mutation, tag string) (obs *observation, collided
 	defer func() { obs.StopMS = time.Since(tStop).Milliseconds() }()
 	for _, g := range obs.Groups {
 		obs.Answered += g.Answered
+		if g.Probe != "" && g.Require == "all" {
+			obs.Probes = append(obs.Probes, g.Probe)
+		}
 	}
 	diedDuringTraffic := exited()
 	termTimedOut := false
@@ -550,11 +587,13 @@ func isLimitEffect(msg string, ms []mutation) bool {
 }
 
 func (h *harness) classifyAccepted(obs *observation, died, termTimedOut, timeTouched bool) {
-	var failed *groupResult
+	var failed, sizeBelow *groupResult
 	for i := range obs.Groups {
-		if !obs.Groups[i].ok() {
+		if !obs.Groups[i].ok() && failed == nil {
 			failed = &obs.Groups[i]
-			break
+		}
+		if obs.Groups[i].SizeBelowConfigured && sizeBelow == nil {
+			sizeBelow = &obs.Groups[i]
 		}
 	}
 	grp := func(g *groupResult) string { return g.Group + "/" + g.Client }
@@ -571,6 +610,9 @@ func (h *harness) classifyAccepted(obs *observation, died, termTimedOut, timeTou
 	case failed != nil:
 		obs.Verdict, obs.Class = "violation", "unanswered:"+grp(failed)
 		obs.What = "a query that the configured limits allow was never answered"
+	case sizeBelow != nil:
+		obs.Verdict, obs.Class = "violation", "effective-udp-size-below-configured"
+		obs.What = "a UDP answer that fits the advertised EDNS buffer and the configured dns.max_udp_response_size came back truncated: " + sizeBelow.Probe
 	case termTimedOut:
 		obs.Verdict, obs.Class = "ambiguous", "shutdown-watchdog"
 		obs.What = "no exit after SIGTERM within the watchdog"
@@ -710,6 +752,7 @@ func (h *harness) account(cr caseResult, found *findings) (class string) {
 	}
 	r.Bucket("queries_sent", int64(obs.Queries))
 	r.Bucket("queries_answered", int64(obs.Answered))
+	r.Bucket("effective_size_probes_applied", int64(len(obs.Probes)))
 	if lp := os.Getenv("C20_LIST"); lp != "" {
 		h.seq.Lock()
 		if f, ferr := os.OpenFile(lp, os.O_APPEND|os.O_CREATE|os.O_WRONLY, 0o644); ferr == nil {
@@ -811,6 +854,7 @@ func TestCheck(t *testing.T) {
 	r.Assume("a duration of 1ns / a size of 1B is a legal positive value: a start-up operation that reports hitting that limit, and queries that time out under a 1ns duration, are the configured behaviour, not violations (panics and crashes still are)")
 	r.Assume("queries of the rate-limited loopback clients are required only while the configured limits allow them; when a rate-limit parameter is mutated only the first query of a fresh client is required")
 	r.Assume("connection_limit.stop/resume of 0 or 1 is below the documented minimum (more than the number of bound addresses): stream transports are then not required to answer")
+	r.Assume("effective-value probe: a UDP answer of known size must be complete when both the advertised EDNS buffer and dns.max_udp_response_size as written in the file exceed it by 64 bytes; skipped when socket buffer sizes or 1ns durations are mutated")
 	r.Assume("an unanswered query is retried alone (3 s, then 8 s) and every violation is confirmed by a second, separate execution of the same file")
 
 	scratch := os.Getenv("VERIF_SCRATCH")
@@ -1025,6 +1069,7 @@ func TestCheck(t *testing.T) {
 	r.Require("accepted", 80)
 	r.Require("rejected", 80)
 	r.Require("queries_answered", 10000)
+	r.Require("effective_size_probes_applied", 100)
 	if n := r.BucketGet("ambiguous"); n > 5 {
 		r.Inconclusive(fmt.Sprintf("%d executions ended without a decisive observation (watchdogs / port collisions)", n))
 	}
